@@ -512,3 +512,85 @@ func CloneTree(tree any) any {
 	}
 	return tree
 }
+
+// Prune is the reference exclusion: it removes from v every value at a path matching one of the specs
+// (slash-separated, "*" standing for an array item or a map key), each with its whole subtree.
+func Prune(s *corpus.Schema, t corpus.TypeExpr, v *model.Value, specs []string) *model.Value {
+	var parsed [][]string
+	for _, sp := range specs {
+		parsed = append(parsed, strings.Split(strings.TrimPrefix(sp, "/"), "/"))
+	}
+	return prune(s, t, v, parsed, nil)
+}
+
+// SpecMatches tells whether path is excluded by one of the specs (a spec excludes its whole subtree).
+func SpecMatches(specs [][]string, path []string) bool {
+	for _, sp := range specs {
+		if len(sp) > len(path) {
+			continue
+		}
+		ok := true
+		for i := range sp {
+			if sp[i] != "*" && sp[i] != path[i] {
+				ok = false
+				break
+			}
+		}
+		if ok {
+			return true
+		}
+	}
+	return false
+}
+
+func prune(s *corpus.Schema, t corpus.TypeExpr, v *model.Value, specs [][]string, path []string) *model.Value {
+	if v == nil {
+		return nil
+	}
+	et, td := model.Resolve(s, t)
+	c := model.Clone(v)
+	sub := func(k string) []string { return append(append([]string{}, path...), k) }
+	switch v.Kind {
+	case model.KArray:
+		// array items are never removed individually by the writer (the wildcard level addresses what is inside them)
+		for i, e := range c.Elems {
+			c.Elems[i] = prune(s, *et.Array, e, specs, sub("*"))
+		}
+	case model.KMap:
+		for k, e := range v.Entries {
+			if SpecMatches(specs, sub(k)) {
+				delete(c.Entries, k)
+				continue
+			}
+			c.Entries[k] = prune(s, *et.Map, e, specs, sub(k))
+		}
+	case model.KUnion:
+		if td != nil && v.Alias != "" {
+			if SpecMatches(specs, sub(v.Alias)) {
+				return &model.Value{Kind: model.KUnion}
+			}
+			for _, m := range td.Members {
+				if m.Alias == v.Alias {
+					c.Member = prune(s, m.Type, v.Member, specs, sub(v.Alias))
+				}
+			}
+		}
+	case model.KRecord:
+		rt := td
+		if td.Kind == "complexkey" {
+			rt = s.Lookup(td.Key)
+		}
+		for _, f := range s.AllFields(rt) {
+			fv := v.Fields[f.Name]
+			if fv == nil {
+				continue
+			}
+			if SpecMatches(specs, sub(f.Name)) {
+				delete(c.Fields, f.Name)
+				continue
+			}
+			c.Fields[f.Name] = prune(s, f.Type, fv, specs, sub(f.Name))
+		}
+	}
+	return c
+}
